@@ -462,7 +462,9 @@ def engine_slotlist(prop, tier, seed, work):
 
 
 # ------------------------------------------------------------------------------ concurrent protocol engines
-CONC_KINDS = {"C03": ["ping"], "C04": ["chan"], "C10": ["exec"], "C11": ["signal", "blockon"]}
+CONC_KINDS = {"C02": ["chan"], "C03": ["ping"], "C04": ["chan"], "C10": ["exec"], "C11": ["signal", "blockon"]}
+# properties that only run the generated schedules of a kind (its protocol model belongs to another property)
+CONC_LIGHT = {"C02"}
 
 
 def conc_nontrivial(trace_path):
@@ -723,7 +725,7 @@ def engine_conc(prop, tier, seed, work):
     import gen_sched
     res = Result()
     for kind in CONC_KINDS[prop]:
-        if kind in CONC_MODELS:
+        if kind in CONC_MODELS and prop not in CONC_LIGHT:
             mod, quick, thorough, sims, variants = CONC_MODELS[kind]
             for cfg in (quick if tier == "quick" else quick + thorough):
                 r = tlc_model(mod, "mc/%s.cfg" % cfg, work, workers=8 if tier == "quick" else 16, timeout=300 if tier == "quick" else 1500)
